@@ -127,6 +127,12 @@ func (c *chainsim) SendMessage(ctx context.Context, payload []byte) (uint32, err
 	c.sendAt = c.w.Now()
 	if c.p.Get("send_err", 0) == 1 {
 		c.w.Probe("send-error-injected")
+		if inc := c.p.Get("include_ms", -1); inc >= 0 && c.p.Get("foreign_adv", 0) == 1 {
+			// the message was refused, but another message of the same wallet (sent elsewhere) is included: the stored
+			// seqno advances all the same
+			c.includeAt = c.w.Now() + time.Duration(inc)*time.Millisecond
+			c.w.Probe("seqno-advances-although-the-send-failed")
+		}
 		return 0, errors.New("chainsim: injected SendMessage error")
 	}
 	if inc := c.p.Get("include_ms", -1); inc >= 0 {
@@ -347,6 +353,7 @@ func genC15(seed uint64, index int, tier string) *run.Plan {
 	}
 	if g.Intn(8) == 0 {
 		p.P["send_err"] = 1
+		p.P["foreign_adv"] = g.Intn(2)
 	}
 	if g.Intn(3) == 0 {
 		p.P["state_lat_ms"] = []int{1, 50, 2000}[g.Intn(3)]
